@@ -26,6 +26,7 @@ from .ref.rs274 import read, last_values
 from .ref import geometry as G
 
 TOL = Fr(1, 10 ** 6)
+DTOL = Fr(1, 10 ** 4)     # retraction depths: the inch rendering of a length is itself rounded to 1e-6 in = 2.5e-5 mm
 
 # -------------------------------------------------------------------------------------------------
 # geometry catalogue (DESIGN section 5): deliberately asymmetric
@@ -53,6 +54,7 @@ POINTS = {
     "Br": (40, 42),         # on R's border
     "N": (39, 42),          # 1 mm outside R
     "H": (Fr(121, 2), 42),  # 0.5 mm outside R (inside D)
+    "Org": (0, 0),          # the bed origin: coordinates that are exactly zero
 }
 # arcs: name -> (start point, end point, I, J, clockwise); absolute mm only
 ARCS = {
@@ -973,6 +975,9 @@ class World(object):
             if f.kind == "gcode":
                 dB = f.B1.fil - f.B0.fil
                 for c, a0, a1 in f.atrace:
+                    if c != f.cmd and a1.hwm > a0.hwm + DTOL:
+                        self.viol("C04 generated command %r (for %r) deposits %s mm of filament the file never "
+                                  "specified; forwarded %r" % (c, f.cmd, float(a1.hwm - a0.hwm), f.fwd), self._detail(f))
                     if f.episode1 and a1.fil > a0.fil + TOL:
                         self.viol("C04 suppressed span pushes filament: %r (for %r)" % (c, f.cmd), self._detail(f))
                     if (c == f.cmd and f.is_move and not f.dest_in and not f.closing and dB > 0):
@@ -993,8 +998,12 @@ class World(object):
                 continue
             A, B = self.A, self.B
             for c, a0, a1 in f.atrace:
+                if c != f.cmd and a1.hwm > a0.hwm + DTOL:
+                    self.viol("C05 generated command %r (for %r) pushes %s mm of filament beyond what had been "
+                              "retracted (a recovery larger than the retraction it recovers); forwarded %r"
+                              % (c, f.cmd, float(a1.hwm - a0.hwm), f.fwd), self._detail(f))
                 if a1.fil > a0.fil + TOL and a1.xy() != a0.xy():
-                    if abs(a0.depth() - f.B0.depth()) > TOL or a0.fw != f.B0.fw:
+                    if abs(a0.depth() - f.B0.depth()) > DTOL or a0.fw != f.B0.fw:
                         self.viol("C05 printing move %r extrudes with physical retraction depth %s (fw %s) while "
                                   "the file assumes %s (fw %s); forwarded %r"
                                   % (c, float(a0.depth()), a0.fw, float(f.B0.depth()), f.B0.fw, f.fwd),
@@ -1005,10 +1014,10 @@ class World(object):
                         self.viol("C05 generated %r does not carry the parameters of the file's %r"
                                   % (c, self.file_g10), self._detail(f))
                     st.tags.add("generated-fw-cmd")
-            if A.depth() > self.max_depth_b + TOL:
+            if A.depth() > self.max_depth_b + DTOL:
                 self.viol("C05 retracted deeper (%s) than the file ever requested (%s) after %r -> %r"
                           % (float(A.depth()), float(self.max_depth_b), f.cmd, f.fwd), self._detail(f))
-            if A.depth() < B.depth() - TOL:
+            if A.depth() < B.depth() - DTOL:
                 self.viol("C05 retracted shallower (%s) than the file assumes (%s) after %r -> %r"
                           % (float(A.depth()), float(B.depth()), f.cmd, f.fwd), self._detail(f))
             if A.fw_errors:
@@ -1017,7 +1026,7 @@ class World(object):
             if B.fw and not A.fw:
                 self.viol("C05 file is firmware-retracted, printer is not, after %r -> %r" % (f.cmd, f.fwd),
                           self._detail(f))
-            if A.depth() > B.depth() + TOL or (A.fw and not B.fw):
+            if A.depth() > B.depth() + DTOL or (A.fw and not B.fw):
                 st.tags.add("recovery-owed")
 
 
@@ -1258,7 +1267,17 @@ class World(object):
                     if f.fwd[:len(enter)] != enter:
                         self.viol("C06 episode opened by %r: expected the enter script %r first, forwarded %r"
                                   % (f.cmd, enter, f.fwd), self._detail(f))
-                    for c in f.fwd[len(enter):]:
+                    rest = f.fwd[len(enter):]
+                    retracts = f.B1.fil < f.B0.fil        # the entering move itself retracts
+                    if rest and not retracts:
+                        self.viol("C06 episode opened by %r (not a retracting move): unexplained commands %r after "
+                                  "the enter script %r" % (f.cmd, rest, enter), self._detail(f))
+                    codes = [read(c)[0] for c in rest]
+                    if rest and codes not in (["G92", "G1"], ["G92", "G0"], ["G10"]):
+                        self.viol("C06 episode opened by the retracting move %r: expected at most its own retraction "
+                                  "(G92 E + G1 E, or G10) after the enter script, forwarded %r" % (f.cmd, f.fwd),
+                                  self._detail(f))
+                    for c in rest:
                         gc, _, words, _ = read(c)
                         ok = (gc == "G92" and [l for l, _ in words] == ["E"]) or gc == "G10" or \
                              (gc in ("G0", "G1") and all(l in "FE" for l, _ in words))
@@ -1374,6 +1393,30 @@ class World(object):
         if st.msgs:
             d["notifications"] = len(st.msgs)
         return d
+
+
+def dest_of(w, ev):
+    """Nominal XY destination of a file event (None when the event does not move in X/Y)."""
+    k = ev[0]
+    f = w.f
+    if k in ("TRAVEL", "PRINT", "WIPE", "TRAVELZ"):
+        return w.pt(ev[1])
+    if k == "XONLY":
+        return (w.pt(ev[1])[0], f["y"])
+    if k == "YONLY":
+        return (f["x"], w.pt(ev[1])[1])
+    if k == "NUDGE":
+        d = Fr(ev[2]) * (Fr(254, 10) if f["inch"] else 1)
+        return (f["x"] + d, f["y"]) if ev[1] == "X" else (f["x"], f["y"] + d)
+    return None
+
+
+def stays_clear(w, ev):
+    """Scenario guard for C02's premise: no move destination lies inside (or within 1 mm of) a region."""
+    d = dest_of(w, ev)
+    if d is None or d[0] is None:
+        return True
+    return not float_inside(w.m_regions, float(d[0]), float(d[1]), margin=0.25)
 
 
 def no_relative_disable(w, ev):
